@@ -5,11 +5,14 @@
 // derived from the subject (permutations, subsets, supersets, near misses, CA
 // subjects, unknown prefixes, wildcard) x format, through the real verifier
 // with the trust anchor always present, so identity is the only reason for the
-// authenticity validation to fail.
+// authenticity validation to fail. Round 5 (anchors.go) adds the trust
+// configuration (which certificate of the chain is the anchor, chain length,
+// scheme) as a dimension.
 package main
 
 import (
 	"context"
+	"crypto/x509"
 	"crypto/x509/pkix"
 	"encoding/asn1"
 	"fmt"
@@ -337,6 +340,9 @@ type caseT struct {
 	// Plugin 1: the signature names a verification plugin whose only verification capability is the revocation
 	// check (verdict: success) - identities are still the library's job and must be evaluated natively.
 	Plugin int `json:"plugin"`
+	// Anchor "" : chain leaf<-intermediate<-root with the root in "ca:s" (rounds 1-4). Otherwise the name of a trust
+	// configuration of anchors.go (which certificates of the chain the configured stores hold, chain length, scheme).
+	Anchor string `json:"anchor,omitempty"`
 }
 
 type world struct {
@@ -360,6 +366,11 @@ func (w *world) run(r *hx.Run, c caseT, env []byte) {
 
 // runWith returns 1 when authenticity passed, 0 when it failed, -1 when the identity evaluation was not reached.
 func (w *world) runWith(r *hx.Run, c caseT, env []byte, priorEnv []byte) int {
+	return w.runAnch(r, c, env, priorEnv, nil)
+}
+
+// runAnch: leaf is the signing certificate (needed only when c.Anchor names a configuration that stores it).
+func (w *world) runAnch(r *hx.Run, c caseT, env []byte, priorEnv []byte, leaf *x509.Certificate) int {
 	ids := []string{}
 	if c.List.Wild {
 		ids = []string{"*"}
@@ -368,7 +379,19 @@ func (w *world) runWith(r *hx.Run, c caseT, env []byte, priorEnv []byte) int {
 		ids = append(ids, id.Raw)
 	}
 	ts := mocks.NewTrustStore().Put("ca", "s", w.root.Cert)
+	storeNames := []string{"ca:s"}
+	if c.Anchor != "" {
+		a, ok := anchorByName(c.Anchor)
+		if !ok {
+			r.Infra("unknown trust configuration %q", c.Anchor)
+			return -1
+		}
+		ts, storeNames = w.storesFor(a, leaf)
+	}
 	bad := func(key, what string) {
+		if c.Anchor != "" {
+			key += ":trust-store=" + c.Anchor
+		}
 		if c.Prior == 1 {
 			key += ":after-earlier-verification-on-same-verifier"
 		}
@@ -378,7 +401,7 @@ func (w *world) runWith(r *hx.Run, c caseT, env []byte, priorEnv []byte) int {
 		if c.Plugin == 2 {
 			key += ":with-honest-identity-plugin-and-revocation-skipped"
 		}
-		r.Violation(key, fmt.Sprintf("%s | leaf=%s (%q) identities=%q prior=%d", what, c.Subject.Label, c.Subject.RDNs, ids, c.Prior), c)
+		r.Violation(key, fmt.Sprintf("%s | leaf=%s (%q) identities=%q prior=%d trust-configuration=%q", what, c.Subject.Label, c.Subject.RDNs, ids, c.Prior, c.Anchor), c)
 	}
 	r.Eval(1)
 	leafAttrs := c.Subject.attrs()
@@ -387,7 +410,7 @@ func (w *world) runWith(r *hx.Run, c caseT, env []byte, priorEnv []byte) int {
 	if c.Plugin == 2 {
 		sv.Override = map[trustpolicy.ValidationType]trustpolicy.ValidationAction{trustpolicy.TypeRevocation: trustpolicy.ActionSkip}
 	}
-	vopts := verifier.VerifierOptions{OCITrustPolicy: vt.OCIDoc(sv, []string{"ca:s"}, ids), RevocationCodeSigningValidator: mocks.AllOK()}
+	vopts := verifier.VerifierOptions{OCITrustPolicy: vt.OCIDoc(sv, storeNames, ids), RevocationCodeSigningValidator: mocks.AllOK()}
 	if c.Plugin == 1 {
 		mgr := mocks.NewManager()
 		mgr.Plugins["p"] = &mocks.VerifyPlugin{Name: "p", Version: "1.0.0", Capabilities: []fw.Capability{fw.CapabilityRevocationCheckVerifier}, ProcessAll: true}
@@ -434,6 +457,12 @@ func (w *world) runWith(r *hx.Run, c caseT, env []byte, priorEnv []byte) int {
 		// integrity may have refused an exotic subject: that is failing closed too
 		r.Outcome("refused-before-authenticity")
 		if want && c.Subject.Clean && c.List.Judged {
+			if c.Anchor != "" {
+				// a verifier may refuse this kind of chain / anchor altogether: fails closed, recorded
+				aStat.note(c.Anchor, false)
+				r.Outcome("recorded:trust-store=" + c.Anchor + ":matching-case-refused-before-authenticity")
+				return -1
+			}
 			bad("clean-subject-refused-before-authenticity", fmt.Sprint(verr))
 		}
 		return -1
@@ -452,6 +481,14 @@ func (w *world) runWith(r *hx.Run, c caseT, env []byte, priorEnv []byte) int {
 	if c.Subject.Clean {
 		class = "clean"
 	}
+	nt := fmt.Sprintf("%s|%s|%d", c.Subject.Label, c.List.Label, c.Format)
+	if c.Anchor != "" {
+		class = "trust-store=" + c.Anchor + ":" + class
+		nt += "|" + c.Anchor
+		if want && c.Subject.Clean && !c.List.Wild {
+			aStat.note(c.Anchor, got)
+		}
+	}
 	switch {
 	case got && !want:
 		why := "identity-not-subset-of-leaf"
@@ -459,16 +496,19 @@ func (w *world) runWith(r *hx.Run, c caseT, env []byte, priorEnv []byte) int {
 			why = "uninterpretable-leaf"
 		}
 		bad("passed/"+why+":"+c.List.key(), "authenticity passed although no listed identity is contained in the leaf subject")
+	case !got && want && c.Anchor != "":
+		// only the implication is judged on the trust-configuration dimension (anchors.go)
+		r.Outcome(class + ":recorded:failed-although-matching(not judged)")
 	case !got && want && (c.Subject.Clean || c.List.Wild):
 		bad("failed-although-matching:"+c.List.key(), fmt.Sprintf("authenticity failed: %v", rs[0].Error))
 	case !got && want:
 		r.Outcome(class + ":failed-although-model-matches(odd subject, fail-closed, not judged)")
 	case got:
 		r.Outcome(class + ":passed")
-		r.Nontrivial(fmt.Sprintf("%s|%s|%d", c.Subject.Label, c.List.Label, c.Format))
+		r.Nontrivial(nt)
 	default:
 		r.Outcome(class + ":failed")
-		r.Nontrivial(fmt.Sprintf("%s|%s|%d", c.Subject.Label, c.List.Label, c.Format))
+		r.Nontrivial(nt)
 	}
 	if !got && verr == nil {
 		bad("verdict-differs-from-authenticity", "authenticity failed under the strict level but verification succeeded")
@@ -484,8 +524,8 @@ func (w *world) runWith(r *hx.Run, c caseT, env []byte, priorEnv []byte) int {
 
 func main() {
 	r := hx.New("C04")
-	r.Rule = "every subject of the grammar (mandatory C/ST/O present or absent x optional subsets, plus duplicate-type, multi-valued-RDN, unknown-OID and escaped-value shapes) x every identity list derived from it x format; one real verifier.Verify per case with the trust anchor present; non-trivial = distinct judged cases that reached the identity evaluation. Round 4 (nearmiss.go): value twins that are equal only after a string preparation (invisible / control code points at start, middle, end; NFC/NFD; compatibility forms; non-ASCII case; look-alike letters; literal escapes) in both directions for every attribute type, and cross-attribute twins (a character moved over the boundary of two attributes without and with each of 15 separator characters, values swapped between types, type=value inside another value), each on a fresh verifier and after an earlier verification; policy changed in place after construction: recorded only"
-	r.Assumptions = []string{"the oracle compares attribute lists kept by the generator; it never parses a distinguished name", "for odd subject shapes (multi-valued RDN, escaped values) only the implication 'passes => some identity is contained in the leaf' is judged", "identity lists marked (extension) are outside the stated alphabet and are recorded without judgement", "value twins that differ only in blanks (doubled, leading, trailing, no-break, tab, newline) are recorded, not judged: the statement says 'independent of spacing'", "whether a verifier notices a policy document that its caller changes after construction is not the statement's business: recorded only"}
+	r.Rule = "every subject of the grammar (mandatory C/ST/O present or absent x optional subsets, plus duplicate-type, multi-valued-RDN, unknown-OID and escaped-value shapes) x every identity list derived from it x format; one real verifier.Verify per case with the trust anchor present; non-trivial = distinct judged cases that reached the identity evaluation. Round 4 (nearmiss.go): value twins that are equal only after a string preparation (invisible / control code points at start, middle, end; NFC/NFD; compatibility forms; non-ASCII case; look-alike letters; literal escapes) in both directions for every attribute type, and cross-attribute twins (a character moved over the boundary of two attributes without and with each of 15 separator characters, values swapped between types, type=value inside another value), each on a fresh verifier and after an earlier verification; policy changed in place after construction: recorded only. Round 5 (anchors.go): the TRUST CONFIGURATION as a dimension - which certificate(s) of the chain the configured trust stores hold and in which order (intermediate only; the signing certificate itself alone, before / after its root, next to root and intermediate, in a second named store), chain length (self-signed signing certificate alone and next to an unrelated root) and signing scheme / store type (signing-authority scheme anchored on the root, on the leaf, on a self-signed leaf): 11 configurations x 36 subjects (all 16 interpretable plain subjects, every set of missing mandatory attributes, every odd shape) x every derived identity list x format on a fresh verifier, the interpretable plain subjects also after an earlier verification (of a chain the same stores do or do not anchor) on the same verifier; there only the implication 'passed => some listed identity is contained in the leaf subject' is judged, 'matching but failed' is recorded and counted as positive control per configuration"
+	r.Assumptions = []string{"the oracle compares attribute lists kept by the generator; it never parses a distinguished name", "for odd subject shapes (multi-valued RDN, escaped values) only the implication 'passes => some identity is contained in the leaf' is judged", "identity lists marked (extension) are outside the stated alphabet and are recorded without judgement", "value twins that differ only in blanks (doubled, leading, trailing, no-break, tab, newline) are recorded, not judged: the statement says 'independent of spacing'", "whether a verifier notices a policy document that its caller changes after construction is not the statement's business: recorded only", "rounds 1-4 families anchor on the root certificate of a three-certificate chain held in ca:s; on the other trust configurations (round 5) a verifier may refuse the anchor itself (e.g. a non-CA certificate in a trust store, as the repository's directory trust store does), so a failing authenticity is never an alarm there - a configuration under which no matching identity passes at all is recorded as never-accepted, and the run ends with an infrastructure error only if that holds for all configurations", "the trust store is the scripted lib/mocks store handed to NewVerifierWithOptions (the X509TrustStore interface), which returns whatever certificates a configuration lists, CA or not"}
 	w := &world{}
 	w.rootAttrs = []attr{{"C", "US"}, {"ST", "WA"}, {"O", "RootCo"}, {"CN", "root"}}
 	w.interAttrs = []attr{{"C", "US"}, {"ST", "WA"}, {"O", "InterCo"}, {"CN", "inter"}}
@@ -541,18 +581,15 @@ func main() {
 			r.Infra("replay: %v", err)
 			r.Finish()
 		}
-		ch := w.leafFor(c.Subject, 0)
-		rsp := forge.Spec{Format: forge.Formats[c.Format], Chain: ch.X509(), Key: ch.Leaf().Key, Payload: forge.PayloadFor(w.desc), SigningTime: time.Now().Add(-time.Hour)}
-		if c.Plugin != 0 {
-			rsp.Ext = []forge.Attr{{Key: forge.HdrPlugin, Critical: true, Value: "p"}}
-		}
-		env := forge.Build(rsp)
+		an, _ := anchorByName(c.Anchor) // "": zero value = the baseline chain and scheme
+		ch := w.chainFor(c.Subject, an)
+		env := w.envFor(ch, an, c.Format, c.Plugin != 0)
 		if c.Prior == 1 {
 			fullSubj := plain("prior-full", attr{"C", "US"}, attr{"ST", "WA"}, attr{"O", "Acme"}, attr{"OU", "eng"}, attr{"CN", "alice"}, attr{"L", "Seattle"}, attr{"STREET", "1 Main"})
 			pch := w.leafFor(fullSubj, 0)
-			w.runWith(r, c, env, forge.Build(forge.Spec{Format: forge.Formats[c.Format], Chain: pch.X509(), Key: pch.Leaf().Key, Payload: forge.PayloadFor(w.desc), SigningTime: time.Now().Add(-time.Hour)}))
+			w.runAnch(r, c, env, forge.Build(forge.Spec{Format: forge.Formats[c.Format], Chain: pch.X509(), Key: pch.Leaf().Key, Payload: forge.PayloadFor(w.desc), SigningTime: time.Now().Add(-time.Hour)}), ch.Leaf().Cert)
 		} else {
-			w.run(r, c, env)
+			w.runAnch(r, c, env, nil, ch.Leaf().Cert)
 		}
 		r.Finish()
 	}
@@ -602,5 +639,7 @@ func main() {
 	w.runFamily(r, "prep", prepFamily(), priorEnvs)
 	w.runFamily(r, "cross", crossFamily(), priorEnvs)
 	w.inPlaceFamily(r)
+	// round 5: which certificate(s) of the chain the configured trust stores hold (anchors.go)
+	w.runAnchors(r, subjects, priorEnvs)
 	r.Finish()
 }
